@@ -1194,23 +1194,56 @@ Proof.
     + exact (IH eq_refl a Hin).
 Qed.
 
+Lemma lookup_layers_some tabs t a : lookup_layers tabs t = Some a -> exists tb, In tb tabs /\ In (t, a) tb.
+Proof.
+  induction tabs as [|tb r IH]; intros H; [discriminate|].
+  cbn [lookup_layers] in H. destruct (assoc_last t tb) as [x|] eqn:Ef.
+  - injection H as H. subst x. exists tb. split; [now left | now apply assoc_last_some].
+  - destruct (IH H) as [tb' [Hin Hd]]. exists tb'. split; [now right | exact Hd].
+Qed.
+
+Lemma lookup_layers_none tabs t : lookup_layers tabs t = None -> forall tb a, In tb tabs -> ~ In (t, a) tb.
+Proof.
+  induction tabs as [|tb0 r IH]; intros H tb a Hin; [destruct Hin|].
+  cbn [lookup_layers] in H. destruct (assoc_last t tb0) as [x|] eqn:Ef; [discriminate|].
+  destruct Hin as [Heq|Hin]; [subst tb0; now apply assoc_last_none | now apply IH].
+Qed.
+
+Lemma lookup_layers_app_some xs ys t a : lookup_layers xs t = Some a -> lookup_layers (xs ++ ys) t = Some a.
+Proof.
+  induction xs as [|tb r IH]; intros H; [discriminate|].
+  cbn [lookup_layers app] in *. destruct (assoc_last t tb); [exact H | now apply IH].
+Qed.
+
+Lemma real_res_incl f p : In p (real_res f) -> In p (fi_res f).
+Proof. unfold real_res. intro H. now apply filter_In in H as [H _]. Qed.
+
 Lemma res_lookup_some g t a : res_lookup g t = Some a -> exists f, In f g /\ In (t, a) (fi_res f).
 Proof.
-  induction g as [|f g' IH]; intros H.
-  - discriminate.
-  - cbn [res_lookup] in H. destruct (assoc_last t (fi_res f)) as [x|] eqn:Ef.
-    + injection H as H. subst x. exists f. split; [now left | now apply assoc_last_some].
-    + destruct (IH H) as [f' [Hin Hd]]. exists f'. split; [now right | exact Hd].
+  unfold res_lookup. intro H. destruct (lookup_layers_some _ _ _ H) as [tb [Hin Hd]].
+  apply in_app_or in Hin as [Hin|Hin]; apply in_map_iff in Hin as [f [<- Hf]]; exists f; split; auto.
+  now apply real_res_incl.
 Qed.
 
 Lemma res_lookup_none g t : res_lookup g t = None -> forall f a, In f g -> ~ In (t, a) (fi_res f).
 Proof.
-  induction g as [|f0 g' IH]; intros H f a Hin.
-  - destruct Hin.
-  - cbn [res_lookup] in H. destruct (assoc_last t (fi_res f0)) as [x|] eqn:Ef; [discriminate|].
-    destruct Hin as [Heq|Hin].
-    + subst f0. now apply assoc_last_none.
-    + now apply IH.
+  unfold res_lookup. intros H f a Hin.
+  apply (lookup_layers_none _ _ H (fi_res f) a). apply in_or_app. right. now apply in_map.
+Qed.
+
+(* a type carried by a message resolves to that message whatever file-level definitions exist and wherever they stand *)
+Lemma res_lookup_prefers_message g t a f :
+  In f g -> In (t, a) (fi_res f) -> a <> "" ->
+  (forall f' a', In f' g -> In (t, a') (fi_res f') -> a' <> "" -> a' = a) ->
+  res_lookup g t = Some a.
+Proof.
+  intros Hf Hd Hne Hag. unfold res_lookup. apply lookup_layers_app_some.
+  destruct (lookup_layers (map real_res g) t) as [x|] eqn:E.
+  - destruct (lookup_layers_some _ _ _ E) as [tb [Hin Hx]]. apply in_map_iff in Hin as [f' [<- Hf']].
+    unfold real_res in Hx. apply filter_In in Hx as [Hx Hnz]. cbn [snd] in Hnz.
+    f_equal. apply (Hag f' x Hf' Hx). intro Ex. subst x. discriminate Hnz.
+  - exfalso. apply (lookup_layers_none _ _ E (real_res f) a); [now apply in_map|].
+    unfold real_res. apply filter_In. split; [exact Hd|]. cbn [snd]. destruct a; [now elim Hne | reflexivity].
 Qed.
 
 (* every declaration of the type [t] in the files of [g] names the same address (in particular: t is declared at most once) *)
@@ -1258,10 +1291,11 @@ Definition rt_sel : list string := [P "Library.DeleteShelf"].
 Definition rt_kept (g : graph) (a : addr) : bool :=
   match allowlist g rt_sel with Ok al => mem a al | Err _ => false end.
 
-(* the lookup does depend on the order of the files when a type is declared twice with different addresses *)
+(* a type declared by a message and again at file level: the declarations do not agree, yet (since the repair of
+   finding selective.resource_declared_twice_file_level_first) the lookup finds the message in either order of the files *)
 Lemma ex_res_lookup_order :
   Permutation [rt_res; rt_lib] [rt_lib; rt_res] /\ ~ res_agree [rt_res; rt_lib] rt_type /\
-  res_lookup [rt_res; rt_lib] rt_type = Some (P "Shelf") /\ res_lookup [rt_lib; rt_res] rt_type = Some "".
+  res_lookup [rt_res; rt_lib] rt_type = Some (P "Shelf") /\ res_lookup [rt_lib; rt_res] rt_type = Some (P "Shelf").
 Proof.
   split; [apply perm_swap|]. split; [|split; vm_compute; reflexivity].
   intros H. specialize (H rt_res rt_lib (P "Shelf") "" (or_introl eq_refl) (or_intror (or_introl eq_refl))
@@ -1282,15 +1316,12 @@ Proof.
   now rewrite (Hone f1 a1 H1 D1), (Hone f2 a2 H2 D2).
 Qed.
 
-(* "a kept RPC that references resource type T keeps the message carrying T" is FALSE of the faithful model when
-   a file that comes earlier declares T at file level: the reference resolves to the address-less synthetic
-   message and the real resource message (with everything only it leads to) is pruned; with the files in
-   the other order it is kept *)
-Lemma resource_reference_keeps_message_refuted :
-  exists g f, In f g /\ In (rt_type, P "Shelf") (fi_res f) /\ rt_kept g (P "DeleteShelfRequest") = true /\
-              rt_kept g (P "Shelf") = false /\ rt_kept g (P "Theme") = false /\
-              rt_kept (rev g) (P "Shelf") = true /\ rt_kept (rev g) (P "Shelf.Row") = true /\ rt_kept (rev g) (P "Theme") = true /\ rt_kept (rev g) (P "Finish") = true.
-Proof.
-  exists [rt_lib; rt_res], rt_res. split; [right; now left|]. split; [now left|].
-  repeat split; vm_compute; reflexivity.
-Qed.
+(* the former witness of finding selective.resource_declared_twice_file_level_first (file-level definition in the
+   earlier file, message in the later one): in either order of the files the kept RPC keeps the resource message
+   and everything only it leads to *)
+Lemma resource_reference_keeps_message_witness :
+  forall g, g = [rt_lib; rt_res] \/ g = [rt_res; rt_lib] ->
+  rt_kept g (P "DeleteShelfRequest") = true /\ rt_kept g (P "Shelf") = true /\ rt_kept g (P "Shelf.Row") = true /\
+  rt_kept g (P "Theme") = true /\ rt_kept g (P "Finish") = true /\ rt_kept g (P "Spare") = false.
+Proof. intros g [-> | ->]; repeat split; vm_compute; reflexivity. Qed.
+
